@@ -184,6 +184,11 @@ class SQLiteBuildDB : public BuildDB {
         return false;
       }
 
+      // The key IDs cached from the previous database no longer mean anything
+      // in the recreated one.
+      engineKeyIDs.clear();
+      dbKeyIDs.clear();
+
       // Always recreate the database from scratch when the schema changes.
       result = basic::sys::unlink(path.c_str());
       if (result == -1) {
